@@ -66,16 +66,12 @@ device_state_as_string(enum DeviceState s)
 
 
 /* ------------------------------------------------------------------ ghost devices */
-struct gdev
-{
-    union
-    {
-        struct Camera cam;
-        struct Storage sto;
-    } u;
-    int starts, stops;     /* successful starts / stop calls that reached a running device */
-    int owned_by_worker;   /* a live worker thread uses this device                        */
-};
+/* A device is a heap object of its HAL type, freed by close (any later use is a memory error).
+ * (An earlier version wrapped both kinds in one union with ghost counters: every state update
+ * then became a byte-level update of the whole 300-byte union and the formulas grew to 10^7
+ * variables.) Objects are zeroed by struct assignment, not memset, for the same reason. */
+static const struct Camera zero_camera;
+static const struct Storage zero_storage;
 
 static struct acq_ghost
 {
@@ -105,16 +101,13 @@ static struct acq_ghost
 
 static struct runtime* g_rt; /* the runtime under test */
 
-static int
-stream_of(const void* p)
-{
-    /* which video stream a controller/channel pointer belongs to (offset inside the runtime
-     * object: an integer comparison, not a pointer relation) */
-    size_t off = (size_t)((const char*)p - (const char*)g_rt);
-    VASSERT(__CPROVER_same_object(p, g_rt) && off >= offsetof(struct runtime, video) && off < sizeof(struct runtime),
-            "[C04.streams-do-not-mix] pointer into one of the two video streams");
-    return off >= offsetof(struct runtime, video) + sizeof(struct video_s) ? 1 : 0;
-}
+/* Which stream / which worker a pointer handed to a stub belongs to is decided by pointer
+ * equality against the (constant) addresses inside the runtime object, and the stub body is
+ * then run with LITERAL stream and worker indices. (Computing the index from the pointer's
+ * offset made every later access g_rt->video[s] a symbolic-index access into the whole
+ * runtime object: byte extractions, 10^7 SAT variables, 15-minute units.) A pointer that is
+ * none of the expected ones fails the [C04.streams-do-not-mix] obligation of the stub. */
+#define V_(s) (g_rt->video[s])
 
 static int
 worker_uses_cam(const struct Camera* c)
@@ -132,8 +125,6 @@ worker_uses_sto(const struct Storage* st)
             return 1;
     return 0;
 }
-#define GDEV_OF_CAM(c) ((struct gdev*)(c))
-#define GDEV_OF_STO(s) ((struct gdev*)(s))
 
 /* ------------------------------------------------------------------ camera HAL stubs */
 struct Camera*
@@ -141,12 +132,12 @@ camera_open(const struct DeviceManager* system, const struct DeviceIdentifier* i
 {
     if (!identifier || identifier->kind != DeviceKind_Camera || nd_bool())
         return 0;
-    struct gdev* d = malloc(sizeof(*d));
+    struct Camera* d = malloc(sizeof(*d));
     VASSUME(d != 0);
-    memset(d, 0, sizeof(*d));
-    d->u.cam.state = DeviceState_AwaitingConfiguration;
+    *d = zero_camera;
+    d->state = DeviceState_AwaitingConfiguration;
     ag.cam_opens++;
-    return &d->u.cam;
+    return d;
 }
 
 void
@@ -159,7 +150,7 @@ camera_close(struct Camera* self)
     VASSERT(!worker_uses_cam(self),
             "[C08.no-close-under-a-worker] a camera is closed while the source thread that uses it is alive");
     ag.cam_closes++;
-    free(GDEV_OF_CAM(self)); /* any later use is a use-after-free */
+    free(self); /* any later use is a use-after-free */
 }
 
 enum DeviceStatusCode
@@ -172,8 +163,6 @@ camera_set(struct Camera* self, struct CameraProperties* settings)
             self->state = DeviceState_Armed;
         return Device_Ok;
     }
-    if (self->state == DeviceState_Running)
-        GDEV_OF_CAM(self)->stops++;
     self->state = DeviceState_AwaitingConfiguration;
     return Device_Err;
 }
@@ -211,7 +200,6 @@ camera_start(struct Camera* self)
     VASSERT(!worker_uses_cam(self), "[C08.no-restart-under-a-worker] a camera is started while a source thread still uses it");
     if (nd_bool()) {
         self->state = DeviceState_Running;
-        GDEV_OF_CAM(self)->starts++;
         return Device_Ok;
     }
     self->state = DeviceState_AwaitingConfiguration;
@@ -224,7 +212,6 @@ camera_stop(struct Camera* self)
     if (!self)
         return Device_Err;
     if (self->state == DeviceState_Running) {
-        GDEV_OF_CAM(self)->stops++;
         self->state = nd_bool() ? DeviceState_Armed : DeviceState_AwaitingConfiguration;
     }
     return Device_Ok;
@@ -256,12 +243,12 @@ storage_open(const struct DeviceManager* system, const struct DeviceIdentifier* 
 {
     if (!identifier || identifier->kind != DeviceKind_Storage || nd_bool())
         return 0;
-    struct gdev* d = malloc(sizeof(*d));
+    struct Storage* d = malloc(sizeof(*d));
     VASSUME(d != 0);
-    memset(d, 0, sizeof(*d));
-    d->u.sto.state = DeviceState_AwaitingConfiguration;
+    *d = zero_storage;
+    d->state = DeviceState_AwaitingConfiguration;
     ag.sto_opens++;
-    return &d->u.sto;
+    return d;
 }
 
 void
@@ -273,10 +260,8 @@ storage_close(struct Storage* self)
         ag.closed_under_worker++;
     VASSERT(!worker_uses_sto(self),
             "[C08.no-close-under-a-worker] a storage device is closed while the sink thread that uses it is alive");
-    if (self->state == DeviceState_Running)
-        GDEV_OF_STO(self)->stops++;
     ag.sto_closes++;
-    free(GDEV_OF_STO(self));
+    free(self);
 }
 
 enum DeviceStatusCode
@@ -318,7 +303,6 @@ storage_start(struct Storage* self)
     VASSERT(!worker_uses_sto(self), "[C08.no-restart-under-a-worker] storage is started while a sink thread still uses it");
     if (nd_bool()) {
         self->state = DeviceState_Running;
-        GDEV_OF_STO(self)->starts++;
         return Device_Ok;
     }
     self->state = DeviceState_AwaitingConfiguration;
@@ -331,7 +315,6 @@ storage_stop(struct Storage* self)
     if (!self)
         return Device_Err;
     if (self->state == DeviceState_Running) {
-        GDEV_OF_STO(self)->stops++;
         self->state = DeviceState_Armed;
     }
     return Device_Ok;
@@ -394,49 +377,55 @@ thread_init(struct thread* self)
     self->is_live_ = 0;
 }
 
-static void
-thread_slot(const struct thread* t, int* s, int* k)
+static uint8_t
+thread_create_impl(const int s, const int k)
 {
-    *s = stream_of(t);
-    struct video_s* v = &g_rt->video[*s];
-    *k = (t == &v->source.thread) ? 0 : (t == &v->filter.thread) ? 1 : 2;
-}
-
-uint8_t
-thread_create(struct thread* self, void (*proc)(void*), void* args)
-{
-    int s, k;
-    thread_slot(self, &s, &k);
     /* a finished but unjoined previous worker only loses its handle; no property speaks
      * about that */
     /* thread creation is assumed to succeed (stated in the evidence) */
     if (k == 1 || k == 2) {
-        int r = (k == 2) ? 0 : 1;
+        const int r = (k == 2) ? 0 : 1;
         VASSERT(ag.wr_intervals[s][r] == 0 && !ag.wr_mapped[s][r],
                 "[C09.next-acquisition-starts-clean,C07.no-leftovers,C04.no-leftovers] a sink/filter worker is started on a reader that still has unread data of an earlier acquisition (those frames would be stored as part of the new one)");
     }
     ag.live[s][k] = 1;
     ag.creates[s][k]++;
-    struct video_s* v = &g_rt->video[s];
-    (void)v; /* from now on the worker uses its device while its is_running flag is up */
+    /* from now on the worker uses its device while its is_running flag is up */
     return 1;
 }
 
-void
-thread_join(struct thread* self)
+#define THREAD_DISPATCH(t, CALL, DEFAULT)                                                     \
+    if ((t) == &V_(0).source.thread) { CALL(0, 0); }                                          \
+    else if ((t) == &V_(0).filter.thread) { CALL(0, 1); }                                     \
+    else if ((t) == &V_(0).sink.thread) { CALL(0, 2); }                                       \
+    else if ((t) == &V_(1).source.thread) { CALL(1, 0); }                                     \
+    else if ((t) == &V_(1).filter.thread) { CALL(1, 1); }                                     \
+    else if ((t) == &V_(1).sink.thread) { CALL(1, 2); }                                       \
+    else {                                                                                    \
+        VASSERT(0, "[C04.streams-do-not-mix] a thread handle that is none of the six worker handles of the runtime"); \
+        DEFAULT;                                                                              \
+    }
+
+uint8_t
+thread_create(struct thread* self, void (*proc)(void*), void* args)
 {
-    int s, k;
-    thread_slot(self, &s, &k);
-    struct video_s* v = &g_rt->video[s];
+#define CALL_(s, k) return thread_create_impl(s, k)
+    THREAD_DISPATCH(self, CALL_, return 0)
+#undef CALL_
+}
+
+static void
+thread_join_impl(const int s, const int k)
+{
     if (ag.live[s][k]) {
         /* a join returns only if the worker terminates: it must have been told to stop, or
          * the thread that will tell it (the source, at the end of its body) must be alive or
          * already gone through its exit path in this very stop sequence */
         int will_end = 1;
         if (k == 1)
-            will_end = v->filter.is_stopping || ag.live[s][0] || ag.joins[s][0];
+            will_end = V_(s).filter.is_stopping || ag.live[s][0] || ag.joins[s][0];
         if (k == 2)
-            will_end = v->sink.is_stopping || ag.live[s][0] || ag.joins[s][0];
+            will_end = V_(s).sink.is_stopping || ag.live[s][0] || ag.joins[s][0];
         if (!will_end)
             ag.hang++;
         VASSERT(will_end, "[C07.join-only-terminating-workers] a worker is joined that nobody has told (or will tell) to stop: stop/abort would not return");
@@ -447,39 +436,47 @@ thread_join(struct thread* self)
              * the filter and the sink are raised by the source's own exit path, after its last
              * commit - not by the client while the source body is still running (frames
              * committed after the consumers' final flush would be left in the rings) */
-            VASSERT(!(v->source.is_running && (v->filter.is_stopping || v->sink.is_stopping)),
+            VASSERT(!(V_(s).source.is_running && (V_(s).filter.is_stopping || V_(s).sink.is_stopping)),
                     "[C07.stop-flags-only-after-last-commit,C04.stop-flags-only-after-last-commit] the filter/sink stop flags were raised while the source body was still running");
-            v->source.is_running = 0;
-            v->source.is_stopping = 0;
-            v->filter.is_stopping = 1;
-            v->sink.is_stopping = 1;
-            if (v->source.camera)
-                camera_stop(v->source.camera);
+            V_(s).source.is_running = 0;
+            V_(s).source.is_stopping = 0;
+            V_(s).filter.is_stopping = 1;
+            V_(s).sink.is_stopping = 1;
+            if (V_(s).source.camera)
+                camera_stop(V_(s).source.camera);
         } else if (k == 1) {
-            v->filter.is_running = 0;
-            v->filter.is_stopping = 0;
+            V_(s).filter.is_running = 0;
+            V_(s).filter.is_stopping = 0;
             /* filter.thread: the reader is left unmapped; its single final process_data may
              * leave a second interval (or, after an error, anything) unread */
             ag.wr_mapped[s][1] = 0;
-            v->filter.reader.state = ChannelState_Unmapped;
+            V_(s).filter.reader.state = ChannelState_Unmapped;
             ag.wr_intervals[s][1] = nd_uchar() % 3;
             if (ag.wr_intervals[s][1])
-                v->filter.reader.id = 3;
+                V_(s).filter.reader.id = 3;
         } else {
-            v->sink.is_running = 0;
-            v->sink.is_stopping = 0;
+            V_(s).sink.is_running = 0;
+            V_(s).sink.is_stopping = 0;
             /* sink.thread: unmapped; drained after a normal exit, anything after a storage error */
             ag.wr_mapped[s][0] = 0;
-            v->sink.reader.state = ChannelState_Unmapped;
+            V_(s).sink.reader.state = ChannelState_Unmapped;
             ag.wr_intervals[s][0] = nd_bool() ? 0 : nd_uchar() % 3;
             if (ag.wr_intervals[s][0])
-                v->sink.reader.id = 1;
-            if (v->sink.storage)
-                storage_stop(v->sink.storage);
+                V_(s).sink.reader.id = 1;
+            if (V_(s).sink.storage)
+                storage_stop(V_(s).sink.storage);
         }
         ag.live[s][k] = 0;
         ag.joins[s][k]++;
     }
+}
+
+void
+thread_join(struct thread* self)
+{
+#define CALL_(s, k) thread_join_impl(s, k)
+    THREAD_DISPATCH(self, CALL_, (void)0)
+#undef CALL_
 }
 
 void event_init(struct event* self) {}
@@ -505,35 +502,42 @@ channel_release(struct channel* self)
 void
 channel_accept_writes(struct channel* self, uint32_t tf)
 {
-    int s = stream_of(self);
-    VASSERT(self == &g_rt->video[s].sink.in, "[C07.refuse-only-sink-channel] accept/refuse is applied to the stream's sink channel");
-    ag.accept[s] = tf ? 1 : 0;
-    ag.n_accept_calls[s]++;
+    if (self == &V_(0).sink.in) {
+        ag.accept[0] = tf ? 1 : 0;
+        ag.n_accept_calls[0]++;
+    } else if (self == &V_(1).sink.in) {
+        ag.accept[1] = tf ? 1 : 0;
+        ag.n_accept_calls[1]++;
+    } else {
+        VASSERT(0, "[C07.refuse-only-sink-channel,C04.streams-do-not-mix] accept/refuse is applied to a stream's sink channel");
+    }
 }
 void* channel_write_map(struct channel* self, size_t nbytes) { return 0; }
 void channel_write_unmap(struct channel* self) {}
 void channel_abort_write(struct channel* self) {}
 
-struct slice
-channel_read_map(struct channel* self, struct channel_reader* reader)
+static uint64_t frame_mem[16];
+
+/* a worker's own reader (r = 0 sink reader on sink.in, 1 filter reader on filter.in), used by
+ * the runtime only while that worker is not running */
+static struct slice
+wr_read_map(const int s, const int r, struct channel_reader* reader)
 {
-    int s = stream_of(self);
-    struct video_s* v = &g_rt->video[s];
-    static uint64_t frame_mem[16];
-    if ((self == &v->sink.in && reader == &v->sink.reader) || (self == &v->filter.in && reader == &v->filter.reader)) {
-        /* a worker's own reader, used by the runtime only while that worker is not running */
-        int r = (reader == &v->sink.reader) ? 0 : 1;
-        VASSERT(!ag.live[s][r == 0 ? 2 : 1] || !(r == 0 ? v->sink.is_running : v->filter.is_running),
-                "[C08.no-touch-under-a-worker] the runtime reads with a worker's reader while that worker runs");
-        VASSERT(reader->state == ChannelState_Unmapped, "[C06.map-needs-unmapped-reader] read_map on a worker reader that still holds a region");
-        if (ag.wr_intervals[s][r] == 0)
-            return (struct slice){ (uint8_t*)frame_mem, (uint8_t*)frame_mem };
-        reader->state = ChannelState_Mapped;
-        ag.wr_mapped[s][r] = 1;
-        ag.wr_len[s][r] = 8 * (size_t)(1 + nd_uchar() % 15);
-        return (struct slice){ (uint8_t*)frame_mem, (uint8_t*)frame_mem + ag.wr_len[s][r] };
-    }
-    VASSERT(self == &v->sink.in && reader == &v->monitor.reader, "[C06.monitor-reads-its-own-stream] the public reader is the stream's monitor reader on the sink channel");
+    VASSERT(!ag.live[s][r == 0 ? 2 : 1] || !(r == 0 ? V_(s).sink.is_running : V_(s).filter.is_running),
+            "[C08.no-touch-under-a-worker] the runtime reads with a worker's reader while that worker runs");
+    VASSERT(reader->state == ChannelState_Unmapped, "[C06.map-needs-unmapped-reader] read_map on a worker reader that still holds a region");
+    if (ag.wr_intervals[s][r] == 0)
+        return (struct slice){ (uint8_t*)frame_mem, (uint8_t*)frame_mem };
+    reader->state = ChannelState_Mapped;
+    ag.wr_mapped[s][r] = 1;
+    ag.wr_len[s][r] = 8 * (size_t)(1 + nd_uchar() % 15);
+    return (struct slice){ (uint8_t*)frame_mem, (uint8_t*)frame_mem + ag.wr_len[s][r] };
+}
+
+/* the public (monitor) reader of stream s on its sink channel */
+static struct slice
+mon_read_map(const int s, struct channel_reader* reader)
+{
     VASSERT(reader->state == ChannelState_Unmapped,
             "[C06.map-needs-unmapped-reader] channel_read_map is called on a reader that still holds a region (it would be marked Expected_Unmapped_Reader for good and every later acquire_map_read would fail)");
     if (reader->state == ChannelState_Mapped) {
@@ -561,22 +565,42 @@ channel_read_map(struct channel* self, struct channel_reader* reader)
     return (struct slice){ (uint8_t*)frame_mem, (uint8_t*)frame_mem + ag.mon_len[s] };
 }
 
-void
-channel_read_unmap(struct channel* self, struct channel_reader* reader, size_t consumed_bytes)
-{
-    int s = stream_of(self);
-    struct video_s* v = &g_rt->video[s];
-    if ((self == &v->sink.in && reader == &v->sink.reader) || (self == &v->filter.in && reader == &v->filter.reader)) {
-        int r = (reader == &v->sink.reader) ? 0 : 1;
-        if (reader->state != ChannelState_Mapped)
-            return;
-        reader->state = ChannelState_Unmapped;
-        ag.wr_mapped[s][r] = 0;
-        if (consumed_bytes >= ag.wr_len[s][r])
-            ag.wr_intervals[s][r]--;
-        return;
+#define READER_DISPATCH(self, reader, MON, WR, DEFAULT)                                       \
+    if ((self) == &V_(0).sink.in && (reader) == &V_(0).monitor.reader) { MON(0); }            \
+    else if ((self) == &V_(1).sink.in && (reader) == &V_(1).monitor.reader) { MON(1); }       \
+    else if ((self) == &V_(0).sink.in && (reader) == &V_(0).sink.reader) { WR(0, 0); }        \
+    else if ((self) == &V_(1).sink.in && (reader) == &V_(1).sink.reader) { WR(1, 0); }        \
+    else if ((self) == &V_(0).filter.in && (reader) == &V_(0).filter.reader) { WR(0, 1); }    \
+    else if ((self) == &V_(1).filter.in && (reader) == &V_(1).filter.reader) { WR(1, 1); }    \
+    else {                                                                                    \
+        VASSERT(0, "[C06.monitor-reads-its-own-stream,C04.streams-do-not-mix] the runtime reads a channel only with the reader registered for it: the stream's monitor reader (or its stopped worker's reader) on the same stream's channel"); \
+        DEFAULT;                                                                              \
     }
-    VASSERT(self == &v->sink.in && reader == &v->monitor.reader, "[C06.monitor-reads-its-own-stream] unmap of the stream's monitor reader");
+
+struct slice
+channel_read_map(struct channel* self, struct channel_reader* reader)
+{
+#define MON_(s) return mon_read_map(s, &V_(s).monitor.reader)
+#define WR_(s, r) return wr_read_map(s, r, (r) == 0 ? &V_(s).sink.reader : &V_(s).filter.reader)
+    READER_DISPATCH(self, reader, MON_, WR_, return ((struct slice){ (uint8_t*)frame_mem, (uint8_t*)frame_mem }))
+#undef MON_
+#undef WR_
+}
+
+static void
+wr_read_unmap(const int s, const int r, struct channel_reader* reader, size_t consumed_bytes)
+{
+    if (reader->state != ChannelState_Mapped)
+        return;
+    reader->state = ChannelState_Unmapped;
+    ag.wr_mapped[s][r] = 0;
+    if (consumed_bytes >= ag.wr_len[s][r])
+        ag.wr_intervals[s][r]--;
+}
+
+static void
+mon_read_unmap(const int s, struct channel_reader* reader, size_t consumed_bytes)
+{
     if (reader->state != ChannelState_Mapped)
         return;
     reader->state = ChannelState_Unmapped;
@@ -584,6 +608,16 @@ channel_read_unmap(struct channel* self, struct channel_reader* reader, size_t c
     /* consuming the whole region finishes the first interval; a partial consume leaves it */
     if (consumed_bytes >= ag.mon_len[s])
         ag.mon_intervals[s]--;
+}
+
+void
+channel_read_unmap(struct channel* self, struct channel_reader* reader, size_t consumed_bytes)
+{
+#define MON_(s) mon_read_unmap(s, &V_(s).monitor.reader, consumed_bytes)
+#define WR_(s, r) wr_read_unmap(s, r, (r) == 0 ? &V_(s).sink.reader : &V_(s).filter.reader, consumed_bytes)
+    READER_DISPATCH(self, reader, MON_, WR_, (void)0)
+#undef MON_
+#undef WR_
 }
 
 struct vfslice make_vfslice(const struct slice s) { return (struct vfslice){ (const struct VideoFrame*)s.beg, (const struct VideoFrame*)s.end }; }
